@@ -126,6 +126,17 @@ fn eval_inner(line: &str) -> String {
                 ok &= it.len() == left && it.size_hint() == (left, Some(left));
             }
             ok &= it.next().is_none() && it.next_back().is_none();
+            // min / max / last / count / position / find / any / all, called as trait methods
+            let members: Vec<usize> = s.iter().map(kidx).collect();
+            ok &= Iterator::max_by_key(s.iter(), |k| kidx(*k)).map(kidx) == members.iter().copied().max()
+                && Iterator::min_by_key(s.iter(), |k| kidx(*k)).map(kidx) == members.iter().copied().min()
+                && Iterator::max(s.iter().map(kidx)) == members.iter().copied().max()
+                && Iterator::last(s.iter()).map(kidx) == members.last().copied()
+                && Iterator::count(s.iter()) == members.len()
+                && Iterator::position(&mut s.iter(), |k| Some(kidx(k)) == members.last().copied()) == members.len().checked_sub(1)
+                && Iterator::fold(s.iter(), 0usize, |a, k| a * 7 + kidx(k)) == members.iter().fold(0usize, |a, k| a * 7 + k)
+                && s.iter().rev().map(kidx).collect::<Vec<_>>() == members.iter().rev().copied().collect::<Vec<_>>();
+            ok &= kind_iter_extremes(s.iter()) == (members.iter().copied().min(), members.iter().copied().max());
             format!("{}{}", kinds_str(s.iter()), if ok { "" } else { " ITERATOR-STYLES-DISAGREE" })
         }
         ["intoiter", a] => kinds_str(set(a).into_iter()),
@@ -158,6 +169,12 @@ fn eval_inner(line: &str) -> String {
         ["iskind", i, k] => (sample_value(i.parse().unwrap()).is_kind(kind(k)) as u8).to_string(),
         _ => format!("BADCASE {line}"),
     }
+}
+
+/// `Iterator::min` / `Iterator::max` reached through a generic function (an inherent-looking call
+/// on the concrete type may be ambiguous when the iterator itself is `Ord`).
+fn kind_iter_extremes<I: Iterator<Item = Kind> + Clone>(it: I) -> (Option<usize>, Option<usize>) {
+    (it.clone().min().map(kidx), it.max().map(kidx))
 }
 
 pub fn generate(args: &Args, out: &mut Out) {
